@@ -105,8 +105,8 @@ NOT_EXERCISED = {
 
 # probes that a full-budget batch must reach (checked by `selftest reach`)
 REQUIRED_PROBES = {
-    "C12": ["has_frozen", "frozen_strict_subset", "all_frozen", "freeze_NT_subtree", "freeze_fn_leaves", "trainable_moved", "teleport_fired", "frozen_grad_leaves_checked", "states_checked"],
-    "C11": ["ctor_roundtrips", "states_checked", "teleport_fired", "sig_scale_min", "sig_tri_diag_min", "sig_df_min", "sig_mix_lse_absmax", "sig_spline_x_mindiff", "sig_planar_margin"],
+    "C12": ["prelude_sibling_trained", "has_frozen", "frozen_strict_subset", "all_frozen", "freeze_NT_subtree", "freeze_fn_leaves", "trainable_moved", "teleport_fired", "frozen_grad_leaves_checked", "states_checked"],
+    "C11": ["rejection_panel_items", "history_failed_calls", "ctor_roundtrips", "states_checked", "teleport_fired", "sig_scale_min", "sig_tri_diag_min", "sig_df_min", "sig_mix_lse_absmax", "sig_spline_x_mindiff", "sig_planar_margin"],
     "C09": ["maf_nodes", "coupling_nodes", "states_checked", "teleport_fired", "sig_cond", "all_positive_states_checked", "prelude_same_sizes"],
     "C18": ["fault_rows", "fault_row_batches", "finite_loss_with_fault_row", "poison_checks", "inf_loss_batches", "clean_run"],
     "C15": ["batch_1", "batch_gt_n", "cond", "remainder_skipped", "val_single_batch", "perm_seam_checked", "group", "group_switches"],
